@@ -817,3 +817,120 @@ instance instDecidableEqExcept {ε α} [DecidableEq ε] [DecidableEq α] : Decid
   | .error _, .ok _ => isFalse (fun e => by cases e)
 
 end Huginn.SigText
+
+namespace Huginn.SigText
+open Huginn.Sig Huginn.SigText.Spec
+set_option linter.unusedSimpArgs false
+
+/-! ### a printed TCP signature always survives on a line
+
+So the `LineSafe (printTcpSig s)` conjunct of `WFItem` is automatic for TCP signature items. -/
+
+/-- no character of the text is whitespace (in particular no line break, space or tab) -/
+def NoWs (t : Str) : Prop := ∀ c ∈ t, isWs c = false
+instance (t : Str) : Decidable (NoWs t) := by unfold NoWs; exact inferInstance
+
+theorem NoWs.append {a b : Str} (ha : NoWs a) (hb : NoWs b) : NoWs (a ++ b) := by
+  intro c hc; rcases List.mem_append.mp hc with h | h
+  · exact ha c h
+  · exact hb c h
+theorem NoWs.cons {c : Char} {t : Str} (hc : isWs c = false) (ht : NoWs t) : NoWs (c :: t) := by
+  intro x hx; rcases List.mem_cons.mp hx with rfl | h
+  · exact hc
+  · exact ht x h
+
+theorem digit_not_ws {c : Char} (h : c.isDigit = true) : isWs c = false :=
+  alnum_not_ws (by simp [Char.isAlphanum, h])
+
+theorem noWs_natDigits (n : Nat) : NoWs (natDigits n) := fun _ hc => digit_not_ws (isDigit_of_mem_natDigits hc)
+
+theorem noWs_ipVersion (v : IpVersion) : NoWs (printIpVersion v) ∧ printIpVersion v ≠ [] := by
+  cases v <;> decide +kernel
+theorem noWs_quirk (q : Quirk) : NoWs (printQuirk q) := by cases q <;> decide +kernel
+theorem noWs_payload (p : PayloadSize) : NoWs (printPayload p) ∧ printPayload p ≠ [] := by
+  cases p <;> decide +kernel
+theorem noWs_plainOpt (o : TcpOption) (h : ∀ n, o ≠ .eol n ∧ o ≠ .unknown n) : NoWs (printOpt o) := by
+  cases o with
+  | eol n => exact absurd rfl (h n).1
+  | unknown n => exact absurd rfl (h n).2
+  | nop => decide +kernel
+  | mss => decide +kernel
+  | ws => decide +kernel
+  | sok => decide +kernel
+  | sack => decide +kernel
+  | ts => decide +kernel
+
+theorem noWs_opt (o : TcpOption) : NoWs (printOpt o) := by
+  cases o with
+  | eol n =>
+    simp only [printOpt]
+    exact NoWs.cons (by decide) (NoWs.cons (by decide) (NoWs.cons (by decide) (NoWs.cons (by decide) (noWs_natDigits n))))
+  | unknown n => simp only [printOpt]; exact NoWs.cons (by decide) (noWs_natDigits n)
+  | nop | mss | ws | sok | sack | ts => exact noWs_plainOpt _ (fun n => ⟨by simp, by simp⟩)
+
+theorem noWs_ttl (t : Ttl) : NoWs (printTtl t) := by
+  cases t with
+  | value n => exact noWs_natDigits n
+  | distance n d => exact NoWs.append (noWs_natDigits n) (NoWs.cons (by decide) (noWs_natDigits d))
+  | guess n => exact NoWs.append (noWs_natDigits n) (by decide)
+  | bad n => exact NoWs.append (noWs_natDigits n) (by decide)
+
+theorem noWs_wsize (w : WindowSize) : NoWs (printWSize w) := by
+  cases w with
+  | mss n => exact NoWs.cons (by decide) (NoWs.cons (by decide) (NoWs.cons (by decide) (NoWs.cons (by decide) (noWs_natDigits n))))
+  | mtu n => exact NoWs.cons (by decide) (NoWs.cons (by decide) (NoWs.cons (by decide) (NoWs.cons (by decide) (noWs_natDigits n))))
+  | value n => exact noWs_natDigits n
+  | mod n => exact NoWs.cons (by decide) (noWs_natDigits n)
+  | any => decide
+
+theorem noWs_optNat (v : Option Nat) : NoWs (printOptNat v) := by
+  cases v with
+  | none => decide
+  | some n => exact noWs_natDigits n
+
+theorem noWs_joinComma {α} {pr : α → Str} (h : ∀ x, NoWs (pr x)) (xs : List α) : NoWs (joinComma pr xs) := by
+  induction xs with
+  | nil => intro c hc; cases hc
+  | cons x xs ih =>
+    cases xs with
+    | nil => exact h x
+    | cons y ys => exact NoWs.append (h x) (NoWs.cons (by decide) ih)
+
+theorem noWs_printTcpSig (s : TcpSig) : NoWs (printTcpSig s) := by
+  simp only [printTcpSig]
+  refine NoWs.append (NoWs.append (NoWs.append (NoWs.append (NoWs.append (NoWs.append (NoWs.append
+    (NoWs.append (noWs_ipVersion _).1 ?_) ?_) ?_) ?_) ?_) ?_) ?_) ?_
+  · exact NoWs.cons (by decide) (noWs_ttl _)
+  · exact NoWs.cons (by decide) (noWs_natDigits _)
+  · exact NoWs.cons (by decide) (noWs_optNat _)
+  · exact NoWs.cons (by decide) (noWs_wsize _)
+  · exact NoWs.cons (by decide) (noWs_optNat _)
+  · exact NoWs.cons (by decide) (noWs_joinComma noWs_opt _)
+  · exact NoWs.cons (by decide) (noWs_joinComma noWs_quirk _)
+  · exact NoWs.cons (by decide) (noWs_payload _).1
+
+theorem lineSafe_of_noWs {t : Str} (hne : t ≠ []) (h : NoWs t) : LineSafe t := by
+  refine ⟨hne, fun hm => by have := h _ hm; revert this; decide, ?_, ?_⟩
+  · intro c hc
+    have hm : c ∈ t := by
+      cases t with
+      | nil => cases hc
+      | cons a r => simp at hc; simp [hc]
+    cases hs : isSpaceTab c with
+    | false => rfl
+    | true => have := h c hm; rw [isWs_of_spaceTab hs] at this; cases this
+  · intro c hc; exact h c (List.mem_of_getLast? hc)
+
+/-- every printed TCP signature can be written on a `sig = ` line as it is -/
+theorem lineSafe_printTcpSig (s : TcpSig) : LineSafe (printTcpSig s) := by
+  apply lineSafe_of_noWs _ (noWs_printTcpSig s)
+  intro h
+  have : printIpVersion s.version = [] := by
+    simp only [printTcpSig] at h
+    simp [List.append_eq_nil_iff] at h
+  exact (noWs_ipVersion s.version).2 this
+
+theorem lineSafe_natDigits (n : Nat) : LineSafe (natDigits n) :=
+  lineSafe_of_noWs (natDigits_ne_nil n) (noWs_natDigits n)
+
+end Huginn.SigText
